@@ -24,6 +24,7 @@ mod common;
 mod c17;
 mod deltacases;
 mod c01;
+mod c18;
 
 use common::*;
 
@@ -63,6 +64,7 @@ fn main() {
         "C17" => c17::run(&ctx),
         "C01" => c01::run_c01(&ctx),
         "C16" => c01::run_c16(&ctx),
+        "C18" => c18::run(&ctx),
         _ => machinery_error(format!("unknown property id {id}")),
     }
 }
